@@ -79,10 +79,10 @@ var c18OpName = []string{"Acquire", "Release", "Release-again", "Release(nil)"}
 // %[flags][width]d. Only for those the property fixes the text ("the format
 // should include exactly one format verb for base 10 integers").
 type c18Fmt struct {
-	pre, suf          string
-	zero, left, plus  bool
-	width             int
-	escapes           bool
+	pre, suf         string
+	zero, left, plus bool
+	width            int
+	escapes          bool
 }
 
 func c18Parse(format string) (f c18Fmt, ok bool) {
